@@ -34,7 +34,8 @@ for seed in range(R.n(3, 12)):
             ps = parts(total, min(k, total))
             for nn in (1, 2):
                 a, b = build(seed, asc, nn), build(seed, asc, nn)
-                va = np.concatenate([np.array(a.get_samples(p)) for p in ps])
+                kept = [a.get_samples(p) for p in ps]          # the caller keeps the returned chunks and joins them afterwards
+                va = np.concatenate([np.asarray(x) for x in kept])
                 vb = np.array(b.get_samples(total))
                 c = dict(seed=seed, asc=asc, parts=ps, noise_sources=nn)
                 name = 'chunking/one-noise-source' if nn == 1 else 'chunking/two-noise-sources'
@@ -42,6 +43,12 @@ for seed in range(R.n(3, 12)):
                     continue
                 R.check(name, c, np.allclose(va, vb, rtol=1e-9, atol=1e-6), float(np.max(np.abs(va - vb))))
                 R.check('clock/advance', c, abs(a.t_start - b.t_start) <= 1e-9 * abs(b.t_start), [a.t_start, b.t_start], nontrivial=False)
+    # equal consecutive request sizes on a real-valued stream, chunks kept by the caller and joined afterwards
+    for ps in ([4, 4, 3], [3, 8, 8], [2, 2, 2, 2, 3]):
+        a, b = build(seed, True, 1, False), build(seed, True, 1, False)
+        kept = [a.get_samples(p) for p in ps]
+        va, vb = np.concatenate([np.asarray(x) for x in kept]), np.array(b.get_samples(sum(ps)))
+        R.check('chunking/equal-sized-requests-chunks-kept-by-the-caller', dict(seed=seed, parts=ps), np.allclose(va, vb, rtol=1e-9, atol=1e-6), float(np.max(np.abs(va - vb))))
     # a gated complex source: requests that lie entirely before it switches on must behave like any other partition
     for ps in ([48], [30, 18], [16, 16, 16], [5, 10, 1, 32]):
         a, b = build(seed, True, 1, 'gated'), build(seed, True, 1, 'gated')
